@@ -112,9 +112,13 @@ def unguarded_path(cfg, src, sinks, check_nodes, is_justification, avoid=()):
     return None
 
 
-def only_raises_from(cfg, nid):
-    """From this node the function can only end by raising (or loop forever)."""
-    r = cfg.reachable_from(nid)
+def only_raises_from(cfg, nid, ignore_exc=True):
+    """From this node normal control flow can only end in an explicit raise:
+    the normal return is unreachable.  Incidental exceptions of the statements
+    on the way (the `exc` twins, e.g. a logging call failing and being caught by
+    an enclosing handler) are not followed unless ignore_exc is False."""
+    avoid = [n.id for n in cfg.nodes if n.kind == "exc"] if ignore_exc else []
+    r = cfg.reachable_from(nid, avoid=avoid)
     return cfg.return_exit not in r
 
 
